@@ -111,4 +111,16 @@ META = {
         "text": "Consumers run as goroutines with their own contexts; Access callbacks block until a generated FinishAccessCb. Checked: returned values were delivered to the consumer's reference and are not released while held unless invalidated; released callbacks fire exactly once iff the machine invalidated after delivery; Access callbacks get delivered values, their context is cancelled by the next quiescence once the machine invalidates the value, Access re-invokes after invalidation and returns a callback result only if no event reached its reference between its look and its check; errors come from the resolver or the caller's cancellation; nobody stays blocked at quiescence when the machine says they can proceed.",
         "note": "The 'between look and check' test uses the event count of the consumer's reference sampled at the grants of Access's private Broadcast sections.",
     },
+    "C12": {
+        "engine": "E1 controlled CAS interleaving + E3 real parallelism; porcupine as linearizability oracle", "design_ref": "DESIGN.md §4 C12",
+        "technique": "generated concurrent histories (controller parks every goroutine between its top load and its compare-and-swap; plus free-running goroutines with random yields) checked for linearizability against a sequential stack/deque model with porcupine, plus element conservation after draining",
+        "text": "CAS failures are forced by the schedule, so retry paths are exercised deterministically and shrunk; real-parallel programs cover the un-hooked interleavings. Every history is checked by porcupine (Pop returns zero exactly when the model stack is empty; LinkedList against a deque incl. PushFront/Peek/PeekTail/IsEmpty/Reset) and for lost / duplicated / invented elements. A retry loop that never terminates is reported as livelock.",
+        "note": "porcupine time-boxed at 5 s per history (timeouts counted, never reported as violations); histories <= 8 goroutines x 30 ops.",
+    },
+    "C13": {
+        "engine": "E3 free-running generated client programs under the Go race detector", "design_ref": "DESIGN.md §4 C13",
+        "technique": "generated client programs (random op sequences per goroutine over 18 concurrency-safe types) executed with real parallelism under -race with the hook points yielding at random; race reports attributed per program and filtered to accesses in non-test library files",
+        "text": "A report counts iff the first non-toolchain frame of at least one of the two accesses lies in a non-test file of the repository (frames are classified by file path because generic instantiations carry the caller's package in their symbol name). Signature = the unordered pair of those frames. The failing program is saved and replayed 100 times.",
+        "note": "Dynamic detection: only executed access pairs are seen; each distinct race is reported once per process. A panic without a race report is inconclusive (exit 2), not a C13 violation.",
+    },
 }
